@@ -118,22 +118,24 @@ class Gen:
         for n in names:
             ent = n
             dim = dim_attr
-            if dim_attr is None and not deferred and not param and not is_dummy and r.random() < 0.25:
+            esel = sel
+            if not deferred and not is_dummy and r.random() < 0.25 and (dim_attr is None or not dim_attr.startswith("(:")):
+                # the entity's own array-spec overrides the DIMENSION attribute
                 dim = r.choice(["(4)", "(2,2)"])
                 ent += dim
+            if tword == "character" and not is_dummy and not deferred and r.random() < 0.2 and "kind" not in sel and ":" not in sel:
+                # the entity's own length overrides the type-spec's
+                clen = r.choice(["*7", "*(5)"])
+                ent += clen
+                esel = norm(clen)
             val = None
             if param:
                 val = self.value_for(tword)
                 if dim:
-                    val = None
-                    ent_val = "[" + ", ".join(self.value_for(tword) for _ in range(1)) + "]"
-                    # array parameters: keep scalars only, simpler ground truth
-                    dim = None
-                    attrs_src[:] = [a for a in attrs_src if not a.lower().startswith("dimension")]
-                    val = self.value_for(tword)
+                    val = "[" + val + ", " + self.value_for(tword) + "]" if r.random() < 0.5 else "(/ " + val + " /)"
                 ent += " = " + val
             ents.append(ent)
-            out.append({"name": n, "type": tword, "selector": sel, "attrs": set(attrs), "dim": norm(dim) if dim else None,
+            out.append({"name": n, "type": tword, "selector": esel, "attrs": set(attrs), "dim": norm(dim) if dim else None,
                         "value": val, "doc": None})
         sep = ", " if attrs_src else ""
         stmt = f"{pad}{src_t}{sep}{', '.join(attrs_src)} :: {', '.join(ents)}"
@@ -155,12 +157,19 @@ class Gen:
             doc = f"doc text {self.nm('k')} after"
             self.lines.append(stmt)
             self.lines.append(f"{pad}!! {doc}")
+        elif mode < 0.7:
+            doc = f"doc text {self.nm('k')} before"
+            doc2 = f"doc text {self.nm('k')} after"
+            self.lines.append(f"{pad}!> {doc}")
+            self.lines.append(stmt)
+            self.lines.append(f"{pad}!! {doc2}")
         else:
             self.lines.append(stmt)
-        line0 = len(self.lines) - 1 - (1 if (0.45 <= mode < 0.6) else 0)
+        line0 = len(self.lines) - 1 - (1 if (0.45 <= mode < 0.7) else 0)
         for d in out:
             d["line"] = line0
             d["doc"] = doc
+            d["doc2"] = doc2 if 0.6 <= mode < 0.7 else None
         # a plain comment or blank line separates documentation from the next entity
         if r.random() < 0.3:
             self.lines.append(r.choice(["", f"{pad}! plain comment"]))
@@ -194,6 +203,15 @@ class Gen:
             self.lines.append(f"    {res} = 1")
         for _ in range(r.randint(0, 2)):
             self.decls += self.declaration(4, derived=derived, in_proc=True)
+        if r.random() < 0.5:
+            # the FORTRAN 77 idiom: several entities in one type statement, one of them made EXTERNAL afterwards
+            e = [self.nm("e") for _ in range(r.randint(2, 3))]
+            self.lines.append(f"    {self.kw('real')} :: {', '.join(e)}")
+            ln = len(self.lines) - 1
+            self.lines.append(f"    {self.kw('external')} {e[0]}")
+            for i, n in enumerate(e):
+                self.decls.append({"name": n, "type": "real", "selector": "", "attrs": {"external"} if i == 0 else set(),
+                                   "dim": None, "value": None, "doc": None, "line": ln})
         self.lines.append(f"  {self.kw('end')} {self.kw('function' if fun else 'subroutine')} {name}")
         self.decls += list(adecl.values())
         self.procs.append({"name": name, "line": line0, "args": args, "arg_decls": adecl, "fun": fun, "doc": pdoc,
@@ -206,7 +224,7 @@ class Gen:
         n_pos = r.randint(0, len(args))
         texts, expect = [], []
         for i, a in enumerate(args):
-            nested = r.choice(["q(1)", "q(fx(1, 2))", "3", "w(2, 3)", "(1 + 2)", "q(1:2)"])
+            nested = r.choice(["q(1)", "q(fx(1, 2))", "3", "w(2, 3)", "(1 + 2)", "q(1:2)", "'x,y'", '"a(b,"', "len('p,q')"])
             if i < n_pos:
                 texts.append(nested)
             else:
@@ -334,7 +352,7 @@ def check(text, g: Gen):
                              "params": {"textDocument": {"uri": uri}, "position": {"line": c["line"], "character": ch}}})
         srv, out = session(ws, msgs)
         by = {m["id"]: m for m in out if "id" in m}
-        all_docs = {d["doc"] for d in g.decls if d["doc"]} | {p["doc"] for p in g.procs if p["doc"]}
+        all_docs = {d["doc"] for d in g.decls if d["doc"]} | {p["doc"] for p in g.procs if p["doc"]} | {d["doc2"] for d in g.decls if d.get("doc2")}
         for k, d in hov.items():
             r = by.get(k, {})
             res = r.get("result")
@@ -364,7 +382,7 @@ def check(text, g: Gen):
                 return {"problem": f"hover differs from the source declaration in its {why}", "entity": d["name"], "source": src.strip(),
                         "hover_declaration": body.split("\n")[0], "expected": {k2: (sorted(v) if isinstance(v, set) else v) for k2, v in d.items() if k2 not in ("line",)}}
             docs_in = {x for x in all_docs if x in val}
-            want_docs = {d["doc"]} if d["doc"] else set()
+            want_docs = ({d["doc"]} if d["doc"] else set()) | ({d["doc2"]} if d.get("doc2") else set())
             if docs_in != want_docs:
                 return {"problem": "documentation shown for the entity is not exactly its own block", "entity": d["name"],
                         "source_line": src.strip(), "context": lines[max(0, d["line"] - 2): d["line"] + 3],
@@ -384,7 +402,8 @@ def check(text, g: Gen):
                 return {"problem": "procedure hover does not list the dummy arguments in declared order", "procedure": p["name"],
                         "expected_arguments": p["args"], "hover": val}
             docs_in = {x for x in all_docs if x in val}
-            allowed = {p["arg_decls"][a]["doc"] for a in p["args"] if p["arg_decls"][a]["doc"]}
+            allowed = {p["arg_decls"][a]["doc"] for a in p["args"] if p["arg_decls"][a]["doc"]} | \
+                {p["arg_decls"][a].get("doc2") for a in p["args"] if p["arg_decls"][a].get("doc2")}
             if (p["doc"] and p["doc"] not in docs_in) or (docs_in - allowed - {p["doc"]}):
                 return {"problem": "documentation shown for the procedure is not its own block (plus its arguments')",
                         "procedure": p["name"], "expected_doc": p["doc"], "docs_found_in_hover": sorted(docs_in),
